@@ -22,7 +22,7 @@ RULE = (
     "generator's own DAG (backward: requires-grad leaves reachable from the tensors through differentiable "
     "paths; mtl: leaves reachable from the features / from each loss by paths avoiding the features). Every "
     "leaf's .grad must agree in None-ness and value, under different S1 schedules for world and twin; when the "
-    "model's default sets overlap, the defaulted call must raise ValueError and leave every .grad bitwise "
+    "model's default sets overlap, the defaulted call must be rejected (raise) and leave every .grad bitwise "
     "unchanged. Programs contain diamonds, deep chains, detached sub-graphs, non-grad leaves, multi-output ops "
     "and leaves reached both through and around the features. Non-trivial: >=2 discovered leaves; distinct = "
     "digest of (ops, shapes, api, which lists are defaulted, discovered sets)."
@@ -132,7 +132,7 @@ def execute(scn):
     nontrivial = sum(len(d) for d in discovered) >= 2
 
     if expect_reject:
-        if out["ok"] or out["exc"] != "ValueError":
+        if out["ok"]:  # "the call is rejected": any exception is a rejection
             viols.append({"clause": "overlapping_defaults_not_rejected", "step": "world", "details": {"outcome": out, "default_shared": discovered[0], "default_tasks": discovered[1:]}, "key": {}})
         after = world.grads()
         for n in world.leaf_names:
